@@ -203,6 +203,11 @@ def halfrate_refusal_files():
     return out
 
 
+def large_files():
+    """chains with links above CHUNKSIZE (65536): the seek code switches from linear scans to real bisection and backward hops"""
+    return {'FB': chain('FB', [link('M', 981, 'natural'), link('A', 982, '3'), link('N', 983, 'natural')])}
+
+
 def standard_files():
     """The C07/C08/C19/C20 file set. Returns dict name -> (path, meta)."""
     out = {}
